@@ -376,6 +376,11 @@ class Fn:
         return self.d["loc"]
 
     @property
+    def sig(self):
+        """uq name plus parameter types: distinguishes overloads in instance names."""
+        return "%s(%s)" % (self.d["uq"], ", ".join(p["t"] for p in self.d.get("params", [])))
+
+    @property
     def owner_cls(self):
         """Class the function belongs to: its parent record, or for friends the
         class it is lexically defined in."""
